@@ -154,7 +154,7 @@ def run_pel_property(run, model, proof, pid, rule):
     thorough = run.tier == "thorough"
     run.rule = rule
     run_corpus(run, model, pid)
-    n = 20000 if thorough else 1500
+    n = 20000 if thorough else 1000
     for i in range(n):
         plugins = rng.random() < 0.8
         if thorough and i % 500 == 0:
